@@ -42,6 +42,17 @@ def app(op, *args):
     if op == "not" and len(args) == 1 and isinstance(args[0], tuple) and len(args[0]) == 3 and args[0][0] == "app" and args[0][1] == "not":
         return args[0][2]
     # one spelling for the negative comparisons of python: `a is not b` is `not (a is b)`, `a not in b` is `not (a in b)`
+    # one spelling for differences: a + (-b) is a - b
+    if op == "+" and len(args) == 2:
+        is_neg = lambda x: isinstance(x, tuple) and len(x) == 3 and x[0] == "app" and x[1] == "neg"
+        if is_neg(args[1]):
+            return ("app", "-", args[0], args[1][2])
+        if is_neg(args[0]):
+            return ("app", "-", args[1], args[0][2])
+    # one orientation for equalities with a constant side: the constant goes right (`0 == x` is `x == 0`)
+    if op in ("==", "!=", "is") and len(args) == 2 and isinstance(args[0], tuple) and len(args[0]) == 2 and args[0][0] == "k" \
+            and not (isinstance(args[1], tuple) and len(args[1]) == 2 and args[1][0] == "k"):
+        args = (args[1], args[0])
     if op == "isnot" and len(args) == 2:
         return app("not", ("app", "is") + tuple(args))
     if op == "notin" and len(args) == 2:
